@@ -10,6 +10,10 @@ def M(name, props, rules, why, *edits):
     MUTANTS.append({'name': name, 'props': props, 'rules': rules, 'why': why, 'edits': list(edits)})
 
 
+def R(name, props, rules, why, *patches):
+    MUTANTS.append({'name': name, 'props': props, 'rules': rules, 'why': why, 'edits': [], 'revert': list(patches)})
+
+
 def N(name, props, why, *edits):
     NEUTRAL.append({'name': name, 'props': props, 'why': why, 'edits': list(edits)})
 
@@ -61,3 +65,44 @@ N('c01_match_to_if', ['C01'], 'can_change written with if/else instead of nested
         } else {
             self.incarnation < other_incarnation
         }'''))
+
+# ---------------------------------------------------------------- reverting the repairs of the genuine defects
+R('revert_D1_set_config_send_buf', ['C06'], ['C06-R4'], 'D1: set_config no longer rebuilds send_buf', 'findings/fix_D1.diff')
+R('revert_D2_turnundead_on_failed_apply', ['C11'], ['C11-R3'], 'D2: courtesy TurnUndead sent although nothing was applied', 'findings/fix_D2.diff')
+R('revert_D3_turnundead_bounce', ['C18'], ['C18-R2'], 'D3: TurnUndead answered with TurnUndead while defunct', 'findings/fix_D3.diff')
+R('revert_D4_announce_own_addr', ['C19'], ['C19-R1'], 'D4: announce_to_down may target own address', 'findings/fix_D4.diff')
+R('revert_D5_big_broadcast', ['C06', 'C16'], ['C06-R2', 'C16-R1'], 'D5: add_broadcast accepts items > u16::MAX', 'findings/fix_D5.diff')
+R('revert_D6_feed_count', ['C06', 'C07'], ['C06-R2', 'C07-R4'], 'D6: feed member count may overflow u16', 'findings/fix_D6.diff')
+
+# ---------------------------------------------------------------- C06
+BROADCAST = 'src/broadcast.rs'
+M('c06_get_u16_guard_weakened', ['C06'], ['C06-R2'], 'member count read with only 1 byte guaranteed',
+  (LIB, 'if remaining >= 2 && header.message != Message::Broadcast {', 'if remaining >= 1 && header.message != Message::Broadcast {'))
+M('c06_custom_loop_guard_weakened', ['C06'], ['C06-R2'], 'length prefix read with fewer than 2 bytes left',
+  (LIB, 'while data.remaining() > 2 {', 'while data.remaining() > 0 {'))
+M('c06_custom_len_check_dropped', ['C06', 'C16'], ['C06-R2'], 'item length not compared with what is left',
+  (LIB, 'if pkt_len == 0 || data.len() < pkt_len {', 'if pkt_len == 0 {'))
+M('c06_put_u16_guard_weakened', ['C06', 'C07'], ['C06-R2'], 'count placeholder written with 1 byte left',
+  (LIB, 'if header.message.needs_piggyback() && buf.remaining_mut() > 2 {', 'if header.message.needs_piggyback() && buf.remaining_mut() > 0 {'))
+M('c06_num_active_plain_sub', ['C06'], ['C06-R1', 'C06-R2', 'C06-R3'], 'num_active decremented with plain subtraction',
+  (MEMBER, 'self.num_active = self.num_active.saturating_sub(1);', 'self.num_active = self.num_active - 1;'))
+M('c06_token_plain_add', ['C06'], ['C06-R1', 'C06-R2', 'C06-R3'], 'timer token bumped with plain addition (overflows after 255 epochs)',
+  (LIB, "        // handling events that aren't relevant anymore.\n        self.timer_token = self.timer_token.wrapping_add(1);",
+   "        // handling events that aren't relevant anymore.\n        self.timer_token = self.timer_token + 1;"))
+M('c06_new_unwrap', ['C06'], ['C06-R2'], 'forget-timer handler unwraps the removal result',
+  (LIB, 'if let Some(_removed) = self.members.remove_if_down(&down) {', 'let _removed = self.members.remove_if_down(&down).unwrap(); {'))
+M('c06_fill_fit_test_weakened', ['C06', 'C07', 'C15'], ['C06-R2'], 'fill writes an entry that may not fit',
+  (BROADCAST, '            if buffer.remaining_mut() >= node.data.len() {\n                num_taken += 1;',
+   '            if buffer.remaining_mut() > 0 {\n                num_taken += 1;'))
+M('c06_prefix_fit_forgets_prefix', ['C06', 'C07', 'C16'], ['C06-R2'], 'length-prefixed fill forgets the 2 prefix bytes in the fit test',
+  (BROADCAST, 'if buffer.remaining_mut() >= node.data.len() + 2 {', 'if buffer.remaining_mut() >= node.data.len() {'))
+M('c06_reservoir_index', ['C06'], ['C06-R2'], 'reservoir replacement index may equal wanted',
+  (MEMBER, 'if replace_at < wanted {', 'if replace_at <= wanted {'))
+M('c06_postcard_flavor_unbounded', ['C06', 'C20'], ['C06-R2', 'C20-R1'], 'postcard flavor writes without checking the space left',
+  ('src/codec/postcard_impl.rs', '        if self.0.remaining_mut() >= data.len() {\n            self.0.put_slice(data);\n            Ok(())\n        } else {\n            Err(postcard::Error::SerializeBufferFull)\n        }',
+   '        self.0.put_slice(data);\n        Ok(())'))
+M('c06_flop_early_return', ['C06', 'C15'], ['C06-R2'], 'fill returns early leaving entries in flop',
+  (BROADCAST, '                self.flop.push(node);\n            }\n        }\n\n        self.flip.append(&mut self.flop);\n\n        num_taken\n    }\n\n    pub(crate) fn fill_with_len_prefix(',
+   '                self.flop.push(node);\n            }\n            if num_taken == 7 {\n                return num_taken;\n            }\n        }\n\n        self.flip.append(&mut self.flop);\n\n        num_taken\n    }\n\n    pub(crate) fn fill_with_len_prefix('))
+M('c06_apply_update_self', ['C06', 'C09'], ['C06-R2', 'C09-R3'], 'handle_data only rejects own-address data when the identity differs',
+  (LIB, 'if header.src == self.identity || header.src.addr() == self.identity.addr() {', 'if header.src != self.identity && header.src.addr() == self.identity.addr() {'))
